@@ -91,6 +91,10 @@ def check(chk, fx):
     chk.rule("GCT", "abstract cases of get_current_term", 8)
     c08.gct(chk, fx)
     eff_v1(chk, fx)
+    # "empty exactly when not in the language / first offending term" rests on the table: its structural rules are
+    # necessary conditions here too (not sufficient: see DESIGN.md)
+    from .. import lr
+    lr.all_table_rules(chk, fx)
 
 
 def rep3(chk, fx, table, site):
